@@ -4,12 +4,34 @@ CONF = dict(
     cmd='c03',
     props='Props/C03.v',
     glue='Extract/GlueC03.v',
-    rule='tbd',
-    assumptions=[],
-    trusted=[],
-    technique='tbd',
-    level_text='tbd',
-    level_note='tbd',
-    explanation='tbd',
+    rule=('histories of 2..7 calls of the real client.MeasureClockOffsetIP (65 %) / client.MeasureClockOffsetSCION (35 %, one SCIONClient, empty path) with one '
+          'IPClient/SCIONClient (interleaved mode on in 7 of 8 histories: up to 3 exchange attempts per call) against a scripted conformant peer on loopback '
+          '(two references = two servers, each keeping (receive, transmit) records like core/server): the peer\'s clock is real time + theta, theta per exchange: 0, +-ns..+-60 years, '
+          'at the 2036 era boundary, constant / jittering / stepping / unrelated between exchanges; per attempt the script delays either direction (0..4 ms), drops the request or '
+          'the reply, duplicates the reply or the request (two handlings, replies in order or reversed), makes the server forget its records (basic reply to an interleaved request), '
+          'puts junk / a foreign datagram / a stale reply (an earlier reply of the run, or the genuine one with its origin field off by one unit, swapped, zero, = the request\'s origin) '
+          'ahead of the reply, sends only stale replies, bad metadata (stratum 0/16, mode, LI, version), or transmit < receive; between calls: nothing, a short pause, '
+          'ResetInterleavedMode, a change of reference, a real 3 s pause, a client clock reading exactly 3 s + {-2..2 ns, +-1 us, +-1 s} after the previous transmit stamp (window edge), '
+          'or a client clock reading after the 2036 era rollover. Recorded per attempt: request fields on the wire, the four timestamps handed to the measurements.Filter, offset and delay '
+          'the client logged, receive time, client state (reflection), result of every call. A history is non-trivial when it contains an accepted interleaved response after a '
+          'loss / duplicate / stale / junk / refused event; distinct = distinct (kind, input)'),
+    assumptions=['fresh_socket_per_request: only replies to copies of the current request reach its socket (the client opens a new socket per request); re-addressed copies of the reply to an earlier request with IDENTICAL timestamp fields (retry after a timeout) are outside the theorem',
+                 'client_clock_strict: a reply arrives after its request was stamped, within one NTP era, so the two stamps differ as Time64 values',
+                 'the server never reuses a receive stamp for this client (C06 proves this for the records it keeps); causality: a request copy is received after it was sent, a reply copy arrives after it was stamped; theta constant within one exchange, arbitrary across exchanges',
+                 'numeric bound: all stamps within 2^31 s of the client clock reading, durations below 2^61 ns; time.Time as unbounded nanoseconds'],
+    trusted=['modelled, not verified: the kernel (SO_TIMESTAMPING transmit/receive stamps are inputs of the model), Go net/slog/context, gopacket + scionproto slayers (SCION framing of the scripted peer and of the client)',
+             'the harness reads the unexported client state (prev) by reflection and the client\'s own log records (offset, delay, receive time); no hook file'],
+    technique=('Coq proof: integer arithmetic of ClockOffset/RoundTripDelay with int64 saturation and Time64 truncation (lia over Euclidean division); a transition system '
+               'client x conformant server (reply contract of C06) x adversarial network with a ghost log of exchanges, an inductive invariant tying the client\'s stored stamps to one '
+               'logged exchange, pairing and bound theorems for every accepted response of every reachable state; differential execution of the extracted model against the real '
+               'IP and SCION clients on scripted loopback histories, property oracle evaluated on the stamps the implementation combined'),
+    level_text=('Theorems hold for every finite run (any number of requests, any delays, losses, duplicates, reorderings, late copies of any earlier request reaching the server, any '
+                'per-exchange server clock offset) under the hypotheses listed; the model is tied to measureClockOffsetIP/SCION, MeasureClockOffsetIP and the per-client loop of '
+                'MeasureClockOffsetSCION, ntp.ClockOffset/RoundTripDelay/TimeFromTime64/Time64FromTime by replaying generated histories on the real code every run and comparing request '
+                'fields, selected timestamps, offset, delay, state and call results; the C03 oracle (four stamps inside the bracket of ONE scripted exchange, |offset - theta| <= rtd/2 + 3 ns) '
+                'is evaluated on the implementation\'s observations'),
+    level_note=('Trusted: Coq kernel, hand-written model validated by the correspondence run, extraction, harness (scripted peer, recorders). Kernel timestamps are inputs; authentication '
+                '(NTS, DRKey) is off in these runs (C05/C10/C13). No axioms.'),
+    explanation='oracle clauses: the four stamps handed to the filter lie in the bracket of one scripted exchange (t1,t2 = its server stamps up to 1 ns, t0 between the client clock reading before the send and the peer\'s receipt, t3 between the peer\'s transmit stamp and the end of the attempt); 2|offset - theta| <= rtd + 6 ns with rtd recomputed from the stamps; a reported offset without an accepted exchange is rejected',
     timeout_quick=900, timeout_thorough=3000,
 )
